@@ -3,6 +3,7 @@
 from __future__ import annotations
 
 import math
+import zlib
 
 import numpy as np
 
@@ -35,6 +36,7 @@ REQUIRED_FAMILIES = [
     "robust-depleted",
     "far-field",
     "core-model-data",
+    "grid-constructors",
 ]
 BUDGET = {"quick": 1200, "thorough": 7200}
 MAX_DISCARD_FRACTION = 0.05
@@ -78,6 +80,11 @@ RULE = (
     "grids of finite range (LinearFinite, Knowles, HandyMod), points at 1.001 / 1.1 (Knowles: 3, 30, 100) x the last shell, BVP, robust "
     "and IVP: r V(r) == total charge. Every element of the shipped core-model file is an atom in a route and in a smooth case of every "
     "run and occurs in molecules; core-model-data checks the file against the library loader / closed form and for plausibility. "
+    "Two of every three cases of EVERY family build their AtomGrid / MolGrid with a seeded per-shell random rotation of the angular "
+    "grids (rotate != 0; drawn from a stream separate from the density's). grid-constructors: MolGrid.from_size / from_pruned / "
+    "from_preset('fine') with their DEFAULT rotate (37, checked) and AtomGrid.from_pruned / from_preset / sizes= with a seeded rotate, "
+    "radial grid supplied by the harness, densities aspherical about every centre (Gaussians on the nuclei plus one in the bond; "
+    "displaced Gaussians), BVP and robust solver against the erf potential. "
     "A case is non-trivial when at least one solve converged and was compared; non-convergence reported by the library "
     "(ValueError 'didn't converge') discards the case."
 )
@@ -114,6 +121,8 @@ ASSUMPTIONS = [
     "split-2 accuracy with depleted sites: exponents 0.3..1.2, occupied sites carry core charge + 1.5..3; worst observed 1.5e-3 x scale",
     "core-model plausibility: density of the model at the nucleus within a factor 3000 of min(Z,2) Z^3/pi (observed 0.93..1.03); a "
     "data-level clause on 5 deterministic numbers, stated from the module's purpose (removing the nuclear cusp)",
+    "grids from the public constructors: presets 'fine' (coarse/medium reach 9e-4 / 6e-4 x sum|c| for H, left out for margin), "
+    "from_size 110 / 194, from_pruned sectors (0.5, 1, 2) x radius 1 with degrees (10, 14, 18, 14); worst observed 3e-4",
     "shipped core parameters contain s functions only (checked at start-up), so the C17 p-type formula defect cannot enter",
 ]
 LEVEL_TEXT = "Exploration: held on every executed density/grid/option combination inside the stated envelope; hundreds of solves, not a proof."
@@ -428,6 +437,16 @@ def cases(tier, seed):
         else:
             spec, opts = {"kind": "trap-linfinite", "n": 3000, "rmin": 1e-3, "rmax": 1e3}, None
         add("far-field", {"k": k, "solver": solver, "rad": spec, "opts": opts, "degree": _pick(rng, [6, 8, 10]), "Z": int(zs[k % nz])}, 2.0)
+    # 14. grids from the public constructors: MolGrid.from_preset / from_size / from_pruned with their DEFAULT rotate (37), AtomGrid
+    # from_pruned / from_preset / sizes= with a seeded rotate; densities aspherical about every centre
+    for k in range(5 if q else 35):
+        ctor = ["mol.from_size", "mol.from_pruned", "mol.from_preset", "atom.from_pruned", "atom.from_preset", "atom.sizes", "mol.from_size"][k % (5 if q else 7)]
+        nat = 2 if q else int(rng.integers(2, 4))
+        pool = _pick(rng, [[1], [6, 7, 8]])
+        p = {"k": k, "ctor": ctor, "atnums": [int(_pick(rng, pool)) for _ in range(nat)] if ctor.startswith("mol") else [int(_pick(rng, [1, 6, 8]))],
+             "size": _pick(rng, [110, 110, 194]), "solver": "robust" if (ctor.startswith("atom") and k % 2) else "bvp",
+             "rad": {"kind": "cc-becke", "n": _pick(rng, [100, 120]), "rmin": 1e-6, "R": _pick(rng, [1.0, 1.5])}}
+        add("grid-constructors", p, (5.0 * nat * (2.0 if ctor == "mol.from_preset" else 1.0)) if ctor.startswith("mol") else 2.0)
     # 13. shipped core-model data, independent of the solvers
     add("core-model-data", {"k": 0}, 1.0)
     return out
@@ -595,10 +614,13 @@ def _compare(ctx, clause, subject, got, want, tol, scale, note=None, extra=None)
     return err
 
 
-def _atomgrid(rgrid, degree, center=(0.0, 0.0, 0.0)):
+_ROT = {"v": 0}  # per-case seed of the random per-shell rotation of the angular grids (0 = no rotation), set in run_case
+
+
+def _atomgrid(rgrid, degree, center=(0.0, 0.0, 0.0), rotate=None):
     from grid.atomgrid import AtomGrid
 
-    return AtomGrid(rgrid, degrees=[int(degree)], center=np.asarray(center, dtype=float))
+    return AtomGrid(rgrid, degrees=[int(degree)], center=np.asarray(center, dtype=float), rotate=_ROT["v"] if rotate is None else int(rotate))
 
 
 def _molgrid(rgrid, degree, atnums, coords):
@@ -641,6 +663,12 @@ def _aniso_comps(rng, lms):
 # ---------------------------------------------------------------------------------------------------
 def run_case(ctx, family, params):
     np.random.seed(int(ctx.rng.integers(2**32 - 1)))  # initial guess of solve_ode_bvp comes from the global RNG
+    # Per-shell random rotation of the angular grids (AtomGrid(rotate=seed); default 37 of the MolGrid constructors): two of three
+    # cases of every family run on rotated grids.  Drawn from a separate stream so that the densities of a case do not depend on it.
+    rr = np.random.default_rng([int(ctx.seed) & 0xFFFFFFFF, zlib.crc32(core.case_id(family, params).encode()), 4])
+    _ROT["v"] = 0 if int(params.get("k", 0)) % 3 == 2 else int(rr.integers(1, 2**31 - 1))
+    ctx.count("cases-on-rotated-grids" if _ROT["v"] else "cases-on-unrotated-grids")
+    ctx.case_note("rotate", _ROT["v"])
     try:
         _run(ctx, family, params)
     except _NotConverged as exc:
@@ -875,6 +903,8 @@ def _run(ctx, family, params):
         _run_far_field(ctx, params)
     elif family == "core-model-data":
         _run_core_data(ctx)
+    elif family == "grid-constructors":
+        _run_constructors(ctx, params)
     else:
         raise core.MonitorError(f"unknown family {family}")
 
@@ -1201,3 +1231,70 @@ def _run_core_data(ctx):
             ctx.check("core-model-nuclear-density-plausible", subj, abs(math.log(ratio)), math.log(3000.0), sig=f"ratio~1e{int(round(math.log10(ratio)))}", detail={"ratio": ratio})
             # the model charge is about the electron count of the neutral atom (observed Z .. Z + 1.3)
             ctx.check("core-model-data", subj + ":charge-about-Z", bool(0.9 * z <= q <= z + 2.0), detail={"charge": q})
+
+
+def _run_constructors(ctx, params):
+    """Grids built by the public constructors (rotated angular shells by default), aspherical densities, analytic erf truth."""
+    from grid.atomgrid import AtomGrid
+    from grid.becke import BeckeWeights
+    from grid.molgrid import MolGrid
+    from grid.poisson import solve_poisson_bvp
+    from grid.robust_poisson import solve_poisson_robust
+
+    rng = ctx.rng
+    rg, tf, r0, rmax = make_radial(params["rad"])
+    if float(rg.points[-1]) > 1e12:
+        rg = rg[:-1]  # node at the trimmed infinity (see _molgrid)
+    ctor, atn = params["ctor"], [int(z) for z in params["atnums"]]
+    nat = len(atn)
+    kw = {"include_origin": False}
+    if ctor.startswith("mol"):
+        coords = _geometry(rng, nat)
+        za = np.array(atn)
+        if ctor == "mol.from_size":
+            grid = MolGrid.from_size(za, coords, int(params["size"]), rgrid=rg, aim_weights=BeckeWeights(order=3), store=True)
+        elif ctor == "mol.from_pruned":
+            grid = MolGrid.from_pruned(za, coords, 1.0, [[0.5, 1.0, 2.0]] * nat, [[10, 14, 18, 14]] * nat, rgrid=rg, aim_weights=BeckeWeights(order=3), store=True)
+        else:
+            grid = MolGrid.from_preset(za, coords, "fine", rgrid=rg, aim_weights=BeckeWeights(order=3), store=True)
+        rot = {int(a.rotate) for a in grid.atgrids}
+        ctx.check("constructor-default-rotate", ctor, rot == {37}, detail={"rotate": sorted(rot)})
+        cs, al = rng.uniform(0.3, 2.0, nat), _loguniform(rng, 0.4, 2.0, nat)
+        cen = [c for c in coords]
+        # one more Gaussian between the nuclei (aspherical about every centre even without the Becke cells)
+        cs, al, cen = np.append(cs, rng.uniform(0.2, 0.8)), np.append(al, _loguniform(rng, 0.4, 1.0)), cen + [coords[0] + 0.4 * (coords[1] - coords[0])]
+        clause = "bvp-accuracy-mol"
+    else:
+        ctr = _centre(rng)
+        coords = np.array([ctr])
+        rot = int(rng.integers(1, 2**31 - 1)) if params["k"] % 4 else 37
+        if ctor == "atom.from_pruned":
+            grid = AtomGrid.from_pruned(rg, 1.0, r_sectors=[0.5, 1.0, 2.0], d_sectors=[10, 14, 18, 14], center=ctr, rotate=rot)
+        elif ctor == "atom.from_preset":
+            grid = AtomGrid.from_preset(atnum=atn[0], preset="fine", rgrid=rg, center=ctr, rotate=rot)
+        else:
+            grid = AtomGrid(rg, sizes=[int(params["size"])], center=ctr, rotate=rot)
+        ctx.check("constructor-default-rotate", ctor, int(grid.rotate) == rot)
+        n = int(rng.integers(1, 3))
+        cs, al = _coeffs(rng, n), _loguniform(rng, 0.3, 2.0, n)
+        cen = []
+        for a in al:
+            u = rng.normal(size=3)
+            cen.append(ctr + u / np.linalg.norm(u) * rng.uniform(0.2, 0.5) / np.sqrt(a))
+        clause = "bvp-accuracy-offcentre"
+    # the shells really are rotated against each other (otherwise the case does not exercise what it is for)
+    ag0 = grid.atgrids[0] if ctor.startswith("mol") else grid
+    i0, i1 = int(ag0.indices[-3]), int(ag0.indices[-2])
+    ctx.case_note("shell_size", i1 - i0)
+    rho = ref.gauss_density(grid.points, cs, al, cen)
+    P = _eval_points(rng, coords)
+    truth = ref.gauss_potential(P, cs, al, cen)
+    scale = float(np.sum(np.abs(cs)))
+    subj = f"solve_poisson_{params['solver']}[{ctor},rotated]"
+    if params["solver"] == "robust":
+        scale += ref.core_charge(atn)
+        pot = _call(ctx, "robust-accuracy", subj, lambda: solve_poisson_robust(grid, rho, tf, np.array(atn), coords, **kw))
+        _compare(ctx, "robust-accuracy", subj, pot(P), truth, TOL_ACC, scale, note="err/scale")
+    else:
+        pot = _call(ctx, clause, subj, lambda: solve_poisson_bvp(grid, rho, tf, **kw))
+        _compare(ctx, clause, subj, pot(P), truth, TOL_ACC, scale, note="err/sum|c|", extra={"grid_size": int(grid.size)})
